@@ -89,9 +89,8 @@ def operand_variants(o, mode, slot, form):
             size = o["memSize"] // 8 if o["memSize"] and o["memSize"] > 0 else 0
             if o.get("memSegment"):
                 # implicit string operand: seg:[reg] without displacement
-                breg = {"es": 7, "ds": 6}.get(o["memSegment"], 3)
-                zreg = data.lower()
-                bid = 7 if "di" in zreg else 6 if "si" in zreg else 3 if "bx" in zreg else breg
+                ro = o.get("memRegOnly", "")
+                bid = {"zax": 0, "zcx": 1, "zdx": 2, "zbx": 3, "zsi": 6, "zdi": 7}.get(ro, 3)
                 out.append((mem(size, (base[0], bid), None, 0, 0), "smem"))
             else:
                 out.append((mem(size, base, None, 0, 16), "mem"))
